@@ -145,7 +145,8 @@ class Gen:
                 return '%s.%s' % (v, rng.choice(attrs))
         if r < 0.98:
             return '(%s, %s)[1]' % (self.atom(scope), self.atom(scope))
-        return par('lambda h: h + %s' % self.atom(scope))
+        # (no lambdas inside arithmetic: operators on a function value hit crash class K3)
+        return self.atom(scope) + ' ^ ' + self.atom(scope)
 
     def multiline_expr(self, scope, ind):
         a, b, c = self.expr(scope, 2), self.expr(scope, 2), self.expr(scope, 2)
@@ -263,6 +264,10 @@ class Gen:
             L.append('# header é')
         elif r < 0.3:
             L += ['"""doc"""', '']
+        elif r < 0.4:
+            L += ['', '']          # leading blank lines
+        elif r < 0.45:
+            L += ['\x0c']
         scope = []
         if self.multi:
             L.append('import mod')
@@ -954,8 +959,20 @@ class Analysis:
         if has_until and in_range and not until_oob:
             ul = op.get('until_line', ln)
             uc = op.get('until_column', len(lines[min(ul, len(lines)) - 1].rstrip('\r\n')) if 1 <= ul <= len(lines) else 0)
-            tail = lines[ul - 1][uc:] + ''.join(lines[ul:]) if 1 <= ul <= len(lines) else ''
-            reaches_eof = all(not l.strip() or l.strip().startswith('#') for l in split_keepends(tail))
+            # is there any code (not blanks/comments) after the end of the selection?
+            def code_part(line):
+                q = None
+                for i, ch in enumerate(line):
+                    if q:
+                        if ch == q:
+                            q = None
+                    elif ch in '\'"':
+                        q = ch
+                    elif ch == '#':
+                        return line[:i]
+                return line
+            rest = [code_part(lines[ul - 1])[uc:]] + [code_part(l) for l in lines[ul:]]
+            reaches_eof = all(not l.strip() for l in rest)
         # ---------------------------------------------------------- exception contract
         ctx.count('exc', key, nontrivial=outcome != 'ok')
         if outcome == 'harness-error':
@@ -1238,6 +1255,10 @@ class Analysis:
         fails, done, wave = [], 0, self.shard * common.NPROC
         while done < len(self.file_cases) and (done == 0 or time.time() < self.deadline):
             f2, err = common.coq_failing(IMPORTS, FILE_FN, self.file_cases[done:done + wave], shard=self.shard, timeout=900)
+            if err and '[timeout]' in err:
+                # an overloaded machine: one more try for this wave before failing closed
+                ctx.stat('coq_wave_retried_after_timeout', True)
+                f2, err = common.coq_failing(IMPORTS, FILE_FN, self.file_cases[done:done + wave], shard=self.shard, timeout=1800)
             if err:
                 raise RuntimeError('coq evaluation failed (files): ' + err[-1500:])
             fails += [done + i for i in f2]
@@ -1331,6 +1352,7 @@ def build_tasks(ctx, root):
             enc={'main.py': codec})
         for o in tasks[-1]['ops']:
             o['apply'] = True
+            o['new_name'] = rng.choice(['renamed', 'nn', 'z9', '_q'])   # representable in every codec used
     # the multi-file project, including the aux files as the file under the cursor
     for i in range(ctx.n(10, 60)):
         files = dict(AUX_FILES)
